@@ -1,6 +1,6 @@
 """C17 — File reports sizes and errors truthfully; the stdio calls are made with the right arguments (FI.1-FI.5).
 The byte-for-byte round trip itself is libc behaviour over runtime data and is not decided (DESIGN §6)."""
-import itertools
+import itertools, re
 from facts import Node, strip_targs, Inconclusive
 from symex import Lin, Unknown, Ref, Sym, Exec, as_lin, Enum, Closure
 from evdom import EvDomain, Ev, run_paths, _flatten
@@ -78,6 +78,14 @@ def run(facts, rep, tier):
         if not c: rep.anchor_missing(f'{F}::{name}', 'not found')
         fns[name] = c
     if rep.broken: return
+    fc = facts.cls(F) or {}
+    hf = [x for x in fc.get('fields', []) if x['name'] == 'm_file']
+    if hf and not re.fullmatch(r'(struct )?(_IO_)?FILE \*', hf[0]['ctype'].strip()):
+        # the rules follow the handle as a plain FILE* (stored by fopen, passed to the stdio calls, nulled by close); an owning wrapper
+        # closes through its deleter and is not described by them
+        for r in ('FI.2', 'FI.3', 'FI.4', 'FI.5'):
+            rep.inconclusive(r, 'File: handle model', hf[0]['loc'], f'the stream handle is kept as `{hf[0]["ctype"][:60]}`, not as a plain FILE*: open / close / read are not followed through the wrapper')
+        return
     opn = fns['open'][0]
     # ---- FI.1 -----------------------------------------------------------------------------------------------------------
     lams = [n for n in opn.nodes() if n.k == 'lambda']
